@@ -30,6 +30,8 @@ func genLemmaVC(ld *Loader, specs *Specs, ls []*Lemma) *FuncVC {
 				t = tBool
 			case "string", "bytes":
 				t = tString
+			case "[]byte":
+				t = types.NewSlice(types.Typ[types.Uint8])
 			default:
 				t = ld.lookupType(v.Type)
 			}
@@ -44,20 +46,31 @@ func genLemmaVC(ld *Loader, specs *Specs, ls []*Lemma) *FuncVC {
 			env.vars[v.Name] = val
 		}
 		var hyps []Term
+		g.hyps = nil
 		for _, h := range l.Hyps {
 			hyps = append(hyps, env.evalBool(h.AST))
+			hh := h
+			snap := env.clone()
+			g.hyps = append(g.hyps, func(k Term) Term {
+				c := snap.clone()
+				c.mode, c.instK, c.pol = 2, k, 1
+				return c.evalBool(hh.AST)
+			})
 		}
 		if l.Concl == nil {
 			continue
 		}
-		goal := env.evalBool(l.Concl.AST)
+		goal, extra := tr.goalClause(env, l.Concl.AST)
 		var vals []NamedTerm
 		for _, v := range l.Vars {
+			if x, ok := env.vars[v.Name]; ok {
+				tr.assumeTyped(x, st, tTrue)
+			}
 			if x, ok := env.vars[v.Name]; ok && len(x.C) == 1 {
 				vals = append(vals, NamedTerm{v.Name, x.C[0]})
 			}
 		}
-		g.e.oblige(&Obl{Name: "lemma." + l.Name, Kind: "lemma", Props: l.Props, Cond: and(hyps...), Goal: goal, Pos: l.Where, Fn: "lemmas", Values: vals})
+		g.e.oblige(&Obl{Name: "lemma." + l.Name, Kind: "lemma", Props: l.Props, Cond: and(hyps...), Goal: goal, Pos: l.Where, Fn: "lemmas", Values: vals, Extra: extra})
 		g.e.oblige(&Obl{Name: "lemma." + l.Name + "#vacuity:hyps-sat", Kind: "vacuity", Props: l.Props, Cond: and(hyps...), Goal: tTrue, Vac: true, Fn: "lemmas"})
 	}
 	vc.Prefix = g.e.prefix()
